@@ -301,3 +301,31 @@ func SnapSummary(snap map[string][]byte) []string {
 	}
 	return out
 }
+
+// MetaProblem evaluates "meta.json present => every listed file present with the
+// recorded size" on one bucket listing (Go-side search aid). "" = holds.
+func MetaProblem(snap map[string][]byte) string {
+	for name, body := range snap {
+		if !strings.HasSuffix(name, "/meta.json") {
+			continue
+		}
+		dir := strings.TrimSuffix(name, "meta.json")
+		var m metadata.Meta
+		if err := json.Unmarshal(body, &m); err != nil {
+			return "meta.json of " + dir + " does not parse"
+		}
+		for _, f := range m.Thanos.Files {
+			if f.RelPath == "meta.json" {
+				continue
+			}
+			b, ok := snap[dir+filepath.ToSlash(f.RelPath)]
+			if !ok {
+				return fmt.Sprintf("%smeta.json is present but %s is missing", dir, f.RelPath)
+			}
+			if int64(len(b)) != f.SizeBytes {
+				return fmt.Sprintf("%smeta.json records %d bytes for %s, the bucket has %d", dir, f.SizeBytes, f.RelPath, len(b))
+			}
+		}
+	}
+	return ""
+}
